@@ -949,6 +949,7 @@ func runC16(c *Ctx, tier string) {
 	runSeekIndexMaxMeaning(c, "C16-B2")
 	runSeekRangeMerge(c, "C16-R1")
 	runFirstKeyByPosition(c, "C16-B3")
+	runSeekLookupScansAll(c, "C16-L1")
 	checkNullsMax(c, "C16-N1")
 }
 
